@@ -6,7 +6,7 @@ Function contracts on the chain from the herd simulation's lists to the optimise
   get_max_slaughter_monthly_after_distribution_waste / get_milk_produced_postwaste (meat_and_dairy.py),
   Parameters.calculate_meat_from_feed_results / calculate_non_meat_and_dairy_from_feed_results,
   FeedAndBiofuels.create_feed_food_from_kcals,
-and structural obligations on which feed series each round's herd simulation is run on.
+and wiring contracts (constructors and conversion recorded) on which feed series each round's herd simulation is run on.
 The re-timing of slaughter in the feed round (total preserved) and the monotone bump of the final round's feed are
 C18's contracts; herds never eating more grass than offered is C07's.
 """
@@ -545,71 +545,131 @@ class YieldsOfEveryRound(Contract):
         return out
 
 
-# ---- which feed each round's herd simulation runs on (structural obligations over parameters.py) ------------------
+class FirstRoundHerds(Contract):
+    """The no-feed round (init_meat_and_dairy_and_feed_from_breeding_and_subtract_feed_biofuels_round1): the herd
+    simulation is offered an all-zero feed series of the horizon's length and the common grass series, the SAME
+    simulation object is the one whose results are converted, and the feed charged is the feed that conversion reports
+    (asserted to be zero in the code).  Constructors, conversion and the demand schedule enter as recorders - however
+    the calls are spelt (positional / keyword, directly or through a private helper)."""
+    prop = "C05"
+    file = PA
+    func = "Parameters.init_meat_and_dairy_and_feed_from_breeding_and_subtract_feed_biofuels_round1"
+    name = "no_feed_round_runs_its_herds_on_no_feed"
+    replayable = False
+    np_floats = True
 
-def herd_feed_per_round(repo, tier, seed):
-    t0 = time.time()
-    tree = ast.parse(open(os.path.join(repo, PA)).read())
-    cls = [n for n in tree.body if isinstance(n, ast.ClassDef) and n.name == "Parameters"][0]
-    fns = {n.name: n for n in cls.body if isinstance(n, ast.FunctionDef)}
-    out = []
+    def inputs(self, S):
+        S.set_conversions(S.real("kd"), S.real("fd"), S.real("pd"), False, False, S.real("pop"))
+        n = S.int("N")
+        S.assume(n >= 1)
+        BK = ("billion kcals each month", "thousand tons each month", "thousand tons each month")
+        ser = {k: S.series(k, n) for k in ("feed_demand", "biofuel_demand", "used")}
+        zeros = lambda: V(Arr(unwrap(n), fn=lambda i: Fraction(0), dtype="float"))
+        # C07: herds eat no more feed than they are offered - offered nothing, the conversion reports nothing used
+        S.forall(n, lambda i: And(ser["used"][i] == 0, ser["feed_demand"][i] >= 0, ser["biofuel_demand"][i] >= 0))
+        feed_demand = unwrap(S.food(ser["feed_demand"], zeros(), zeros(), *BK))
+        biofuel_demand = unwrap(S.food(ser["biofuel_demand"], zeros(), zeros(), *BK))
+        used = self.used = unwrap(S.food(ser["used"], zeros(), zeros(), *BK))
+        self.schedules = (feed_demand, biofuel_demand)
+        log = self.log = {}
 
-    def herd_calls(fn):
-        return [n for n in ast.walk(fn) if isinstance(n, ast.Call) and isinstance(n.func, ast.Name) and n.func.id == "CalculateFeedAndMeat"]
+        def ctor(name):
+            def f(interp, ctx, fv, args, kwargs):
+                log[name] = dict(kwargs)
+                if name == "MeatAndDairy":
+                    args[0].attrs.update(human_inedible_feed=("MARKER", "grass"), kcals_per_head_meat_dict={})
+                return None
+            return f
 
-    def kw(call, name):
-        for k in call.keywords:
-            if k.arg == name:
-                return ast.unparse(k.value)
-        return None
+        def convert(interp, ctx, fv, args, kwargs):
+            log["converted"] = kwargs.get("feed_meat_object")
+            return (used, {}, kwargs.get("time_consts"), kwargs.get("constants_out"))
 
-    def rec(name, ok, detail):
-        out.append({"name": f"C05/rounds/{name}", "kind": "structural", "status": "discharged" if ok else "failed", "backend": "ast",
-                    "seconds": round(time.time() - t0, 3), "detail": detail[:600], "goal": name,
-                    "replay_verdict": None if ok else "violation", "replay": None if ok else {"verdict": "violates-natively", "detail": detail}})
+        self.summaries = {
+            (AP, "CalculateFeedAndMeat.__init__"): ctor("herd_simulation"),
+            (MD, "MeatAndDairy.__init__"): ctor("MeatAndDairy"),
+            (MD, "MeatAndDairy.initialize_this_country_animal_kcals"): lambda *a, **k: None,
+            (FB, "FeedAndBiofuels.__init__"): ctor("FeedAndBiofuels"),
+            (FB, "FeedAndBiofuels.get_biofuels_and_feed_from_delayed_shutoff"): lambda interp, ctx, fv, args, kwargs: (biofuel_demand, feed_demand),
+            (PA, "Parameters.init_meat_and_dairy_and_feed_from_breeding"): convert,
+        }
+        ci = S.opendict("constants_inputs", {"COUNTRY_CODE": "XXX", "BREEDING_STRATEGY": "reduce_breeding", "NMONTHS": unwrap(n)}, closed=True)
+        return dict(args=[S.obj(PA, "Parameters"), {}, ci, {}], n=n, ser=ser)
 
-    # round 1: zero feed, all-zero series of the horizon's length, and the result is asserted to be zero feed used
-    f1 = fns["init_meat_and_dairy_and_feed_from_breeding_and_subtract_feed_biofuels_round1"]
-    c1 = herd_calls(f1)
-    zero_def = [n for n in ast.walk(f1) if isinstance(n, ast.Assign) and ast.unparse(n.targets[0]) == "zero_feed"]
-    zero_ok = (len(zero_def) == 1 and "kcals=np.zeros(constants_inputs['NMONTHS'])" in ast.unparse(zero_def[0].value)
-               and "fat=np.zeros(constants_inputs['NMONTHS'])" in ast.unparse(zero_def[0].value))
-    asserted = any(isinstance(n, ast.Assert) and "zero_feed_used.all_equals_zero()" in ast.unparse(n.test) for n in ast.walk(f1))
-    rec("a_round_that_charges_no_feed_runs_its_herds_on_no_feed",
-        len(c1) == 1 and kw(c1[0], "available_feed") == "zero_feed" and zero_ok and asserted
-        and any(isinstance(n, ast.Assign) and ast.unparse(n.targets[0]) == "time_consts['feed']" and ast.unparse(n.value) == "zero_feed_used" for n in ast.walk(f1)),
-        f"herd simulation fed: {kw(c1[0], 'available_feed') if c1 else None}; zero series of NMONTHS: {zero_ok}; feed used asserted zero: {asserted}")
-    # round 2: herds run on the scenario's demand schedule; grass is the same series in every round
-    f2 = fns["compute_parameters_second_round"]
-    c2 = herd_calls(f2)
-    rec("feed_round_runs_its_herds_on_the_demand_schedule", len(c2) == 1 and kw(c2[0], "available_feed") == "feed_demand",
-        f"herd simulation fed: {kw(c2[0], 'available_feed') if c2 else None}")
-    # round 3: herds run on what round 2 allocated to feed; the feed charged is what they ate, then only increased
-    f3 = fns["compute_parameters_third_round"]
-    c3 = herd_calls(f3)
-    src3 = ast.unparse(f3)
-    flow = ("feed_sum_billion_kcals = interpreted_results_round2.feed_sum_kcals_equivalent.in_units_bil_kcals_thou_tons_thou_tons_per_month()" in src3
-            and "assert (feed_used_round3_copy <= feed_used_round3.kcals).all()" in src3
-            and "time_consts_round3['feed'] = feed_used_round3" in src3
-            and "feed_used_round3_copy = feed_used_round3.kcals.copy()" in src3)
-    rec("final_round_charges_at_least_the_feed_its_herds_ate", len(c3) == 1 and kw(c3[0], "available_feed") == "feed_sum_billion_kcals" and flow,
-        f"herd simulation fed: {kw(c3[0], 'available_feed') if c3 else None}; charged feed := feed used by the herds, only increased afterwards (asserted): {flow}")
-    same_grass = all(kw(c[0], "available_grass") == "grasses_for_animals" for c in (c1, c2, c3) if c)
-    rec("every_round_offers_the_same_grass_series", same_grass and all(
-        "grasses_for_animals = meat_and_dairy.human_inedible_feed" in ast.unparse(f) for f in (f1, f2, f3)), "available_grass=meat_and_dairy.human_inedible_feed in all three rounds")
-    # every round converts the herd results through the same function
-    conv = fns["init_meat_and_dairy_and_feed_from_breeding"]
-    csrc = ast.unparse(conv)
-    rec("every_round_converts_its_own_herd_results", all(x in csrc for x in (
-        "self.calculate_meat_from_feed_results(constants_inputs, constants_out, time_consts, meat_and_dairy, feed_meat_object)",
-        "dairy_population = feed_meat_object.get_total_milk_bearing_animals()",
-        "feed_used = feed_and_biofuels_class.create_feed_food_from_kcals(feed_meat_object.feed_used)"))
-        and all("self.init_meat_and_dairy_and_feed_from_breeding(" in ast.unparse(f) for f in (f1, f2, f3)), "meat, milk and feed used come from the round's own CalculateFeedAndMeat object")
-    return out
+    def ensures(self, S, a, res):
+        i, log = S.idx("i", a["n"]), self.log
+        sim = log.get("herd_simulation", {})
+        offered = sim.get("available_feed")
+        tc = unwrap(res)[1]
+        if not isinstance(offered, Obj) or not isinstance(tc, dict):
+            return {"herds_are_offered_an_all_zero_feed_series_of_the_horizons_length": V(False)}
+        off = V(offered)
+        return {"herds_are_offered_an_all_zero_feed_series_of_the_horizons_length": And(
+                    V(unwrap(off.kcals).length) == a["n"], off.kcals[i] == 0, off.fat[i] == 0, off.protein[i] == 0),
+                "herds_graze_the_common_grass_series": V(sim.get("available_grass") == ("MARKER", "grass")),
+                "the_simulation_that_was_fed_is_the_one_converted": V(log.get("converted") is sim.get("self") and sim.get("self") is not None),
+                "feed_charged_is_what_the_conversion_reports": V(tc.get("feed") is self.used),
+                # the schedules every later check compares against are the scenario's delayed-shutoff schedules
+                "schedules_handed_on_are_the_scenarios_delayed_shutoff_schedules": V(
+                    unwrap(res)[4] is self.schedules[0] and unwrap(res)[5] is self.schedules[1])}
+
+
+class FinalRoundHerds(Contract):
+    """The final round (compute_parameters_third_round): its herd simulation is offered exactly the feed the feed round
+    allocated (the feed round's result, expressed in billion kcals per month) and the common grass series, that same
+    simulation is the one converted, and the charge starts from the feed those herds used (raised afterwards only by
+    increase_biofuels_then_feed - C18).  Same set-up as C03's FinalRoundCompensation, with the constructors recording."""
+    prop = "C05"
+    file = PA
+    func = "Parameters.compute_parameters_third_round"
+    name = "final_round_runs_its_herds_on_the_feed_rounds_allocation"
+    replayable = False
+    np_floats = True
+    merge = True
+
+    def inputs(self, S):
+        from contracts import C03
+        self.base = C03.FinalRoundCompensation(True)
+        a = self.base.inputs(S)
+        self.summaries = dict(self.base.summaries)
+        log = self.log = {}
+        inner_convert = self.summaries[(PA, "Parameters.init_meat_and_dairy_and_feed_from_breeding")]
+
+        def herd_sim(interp, ctx, fv, args, kwargs):
+            log["herd_simulation"] = dict(kwargs)
+            return None
+
+        def md(interp, ctx, fv, args, kwargs):
+            args[0].attrs.update(human_inedible_feed=("MARKER", "grass"), kcals_per_head_meat_dict={})
+            return None
+
+        def convert(interp, ctx, fv, args, kwargs):
+            log["converted"] = kwargs.get("feed_meat_object")
+            return inner_convert(interp, ctx, fv, args, kwargs)
+
+        self.summaries[(AP, "CalculateFeedAndMeat.__init__")] = herd_sim
+        self.summaries[(MD, "MeatAndDairy.__init__")] = md
+        self.summaries[(PA, "Parameters.init_meat_and_dairy_and_feed_from_breeding")] = convert
+        return a
+
+    def ensures(self, S, a, res):
+        i, log, ser, conv, cap = S.idx("i", a["n"]), self.log, a["ser"], a["conv"], a["captured"]
+        sim = log.get("herd_simulation", {})
+        offered = sim.get("available_feed")
+        if not isinstance(offered, Obj) or "feed" not in cap:
+            return {"herds_are_offered_what_the_feed_round_allocated": V(False)}
+        # billion kcals per month <-> kcals per person per day:  x * kcals_daily * 1e9 / (kcals_monthly * population)
+        # (the code shaves one part in 1e9 off, "this sometimes prevents optimization failures": never more than
+        # allocated, and not less than all but a millionth of it)
+        lhs, rhs = V(offered).kcals[i] * (conv.kcals_daily * 10 ** 9), ser["feed2"][i] * (conv.kcals_monthly * conv.population)
+        return {"herds_are_offered_what_the_feed_round_allocated": And(lhs <= rhs, lhs >= rhs * Fraction(999999, 1000000)),
+                "herds_graze_the_common_grass_series": V(sim.get("available_grass") == ("MARKER", "grass")),
+                "the_simulation_that_was_fed_is_the_one_converted": V(log.get("converted") is sim.get("self") and sim.get("self") is not None),
+                "charge_starts_from_the_feed_its_herds_used": V(cap["feed"])[i] == ser["feed_used3"][i]}
 
 
 CONTRACTS = [MeatProduced(), MilkHerd(), PerHeadYields(), MeatAfterWaste(), MonthlyMeat(1), MonthlyMeat(3), MeatFromFeedResults(), Milk(True),
-             Milk(False), FeedUsedHandedOn(), YieldsOfEveryRound(False), YieldsOfEveryRound(True), RoundConversion(), MeatProducedTwice(), SecondRoundHandOff()] + ([MonthlyMeat(6), MonthlyMeat(12)] if os.environ.get("VERIF_TIER") == "thorough" else [])
+             Milk(False), FeedUsedHandedOn(), YieldsOfEveryRound(False), YieldsOfEveryRound(True), RoundConversion(), MeatProducedTwice(), SecondRoundHandOff(), FirstRoundHerds(), FinalRoundHerds()] + ([MonthlyMeat(6), MonthlyMeat(12)] if os.environ.get("VERIF_TIER") == "thorough" else [])
 def _c07():
     from contracts import C07
     from contracts.common import relabelled
@@ -618,7 +678,7 @@ def _c07():
 
 # "the herds never eat more grass than is available": C07's feeding contracts, re-run under this property
 CONTRACTS += _c07()
-EXTRA = [herd_feed_per_round]
+EXTRA = []
 TRUSTED = [
     "machine floats treated as mathematical reals",
     "get_max_slaughter_monthly_after_distribution_waste is proved month by month for fixed horizons (1 and 3) and enters calculate_meat_from_feed_results through the point-wise summary of that contract for an arbitrary horizon",
